@@ -19,7 +19,7 @@ func H_C01_flat_q() { hC01Flat(1, 2, 2, 1, true, false, false) }   // n<=2, d<=2
 func H_C01_flat_q3() { hC01Flat(3, 3, 1, 0, false, false, false) } // n=3, d=1, no op, 5 filter patterns
 func H_C01_flat_qh() { hC01Flat(1, 2, 1, 3, false, true, true) }   // histories: n<=2 then <=3 ops incl. Add, l2sq, no filter / threshold
 // thorough shapes
-func H_C01_flat_t() { hC01Flat(1, 2, 2, 2, true, true, false) }
+func H_C01_flat_t() { hC01Flat(1, 2, 1, 2, true, true, false) }
 func H_C01_flat_t3() { hC01Flat(3, 3, 2, 1, true, false, false) }
 func H_C01_flat_t4() { hC01Flat(4, 4, 1, 0, false, false, false) }
 
